@@ -55,6 +55,11 @@ def cases(tier, seed):
             out.append(('struct', name, cfg, seed))
     for cfg in ('gaussian-class', 'uniform-name'):
         out.append(('big', 70001, cfg, seed))
+    # ... and the second fit is given the table as a bare ndarray: the model is labelled 0..d-1 again, not by the old names
+    for cfg in ('default', 'uniform-name', 'kde-instance', 'gaussian-instance'):
+        for t in tables.table_zoo(tier):
+            if t[4] <= 300 and t[0] <= 3 and not t[3]:
+                out.append(('zoo-refit-nd', t, cfg, seed))
     # a single variable in every container: the matrix is the 1 x 1 unit matrix labelled by that column
     for cfg in ('default', 'gaussian-class'):
         out.append(('one-column', 0, cfg, seed))
@@ -131,9 +136,12 @@ def run_case(case):
     if kind == 'one-column':
         return _one_column(r, case)
     r.state((kind, t, cfg))
-    if kind in ('zoo', 'zoo-refit'):
+    if kind in ('zoo', 'zoo-refit', 'zoo-refit-nd'):
         df, info = tables.gaussian_copula_table(t, A.shift_from_seed(seed))
-        tname = str(t) + (' (object previously fitted on another table and queried)' if kind == 'zoo-refit' else '')
+        if kind == 'zoo-refit-nd':
+            df = df.reset_index(drop=True)
+            df.columns = list(range(df.shape[1]))          # what a model fitted on the bare array calls its columns
+        tname = str(t) + (' (object previously fitted on another table and queried)' if kind == 'zoo-refit' else ' given as ndarray (object previously fitted on a labelled frame)' if kind == 'zoo-refit-nd' else '')
     elif kind == 'big':
         df = tables.big_table(t)
         tname = f'big-{t}-rows'
@@ -145,7 +153,14 @@ def run_case(case):
     sig = 'C02'
     r.tr()
     try:
-        if kind == 'zoo-refit':
+        if kind == 'zoo-refit-nd':
+            named, _ = tables.gaussian_copula_table((t[0], 'equi-' if t[1] != 'equi-' else 'ar1', 'rotated', (), 30, 'str'))
+            gm = tables.fit_gm(named, cfg)
+            gm.sample(2)
+            gm.fit(df.to_numpy().copy())
+            r.hit('refit-history')
+            r.tr(3)
+        elif kind == 'zoo-refit':
             other = (t[0], 'equi-' if t[1] != 'equi-' else 'ar1', 'bimodal' if t[2] != 'bimodal' else 'rotated', (), 30, t[5])
             df0, _ = tables.gaussian_copula_table(other)
             df0.columns = list(df.columns)
